@@ -83,6 +83,11 @@ func c16Property(rt *rapid.T, ev *evid.Rec) {
 						has = true
 					}
 				}
+				for _, c := range d.Columns {
+					if c.Name == idc {
+						has = true // already declared by the generator
+					}
+				}
 				if !has {
 					// declared with its block entry, or as a table column only (shovel adds the field)
 					if rapid.Bool().Draw(rt, "withblockentry") {
